@@ -84,7 +84,12 @@ impl ViMode for ViInsert {
 				self.pending_cmd.set_motion(MotionCmd(1,Motion::BackwardChar));
 				self.register_and_return()
 			}
-			_ => common_cmds(key)
+			_ => {
+				// Cursor keys and deletions are part of the session that '.' repeats
+				let cmd = common_cmds(key)?;
+				self.register_cmd(&cmd);
+				Some(cmd)
+			}
 		}
 	}
 
